@@ -5,16 +5,16 @@ HERE = os.path.dirname(os.path.dirname(os.path.abspath(__file__)))
 CLAIMED = {
     "C14": dict(level="fault_enumeration", ref="DESIGN.md §4 C14",
         technique="deterministic simulation: option-history programs with injected exits/faults vs a stack model",
-        text="Seeded programs of nested global_options blocks (real with-statements, generator-held and decorated blocks) with set_options, invalid updates, mutation of returned dicts, every exception kind, early return/break, and exceptions injected inside real numpoly calls (line interrupt at position k, MemoryError at allocation k); a stack model of the option dict is compared with get_options() after every step. Also: manager objects entered while active or again afterwards, decorated recursive functions, updates with ill-formed values (atomic either way), unknown names with any value (None, False, ""), runs with warnings escalated to errors, a second party's set_options landing at executed line k of a running library operation (which must not overwrite it), and stack exhaustion at every distance from the recursion limit in a window around a block. The enumerated family (depth 1-4 x 15 exit kinds x 7 inner actions x catch level) is covered completely in every run, the rest is seeded sampling: evidence, not proof.",
+        text="Seeded programs of nested global_options blocks (real with-statements, generator-held and decorated blocks) with set_options, invalid updates (an unknown name alone, mixed with a few known ones, or together with a value for every known option), mutation of returned dicts, every exception kind, early return/break, and exceptions injected inside real numpoly calls (line interrupt at position k, MemoryError at allocation k); a stack model of the option dict is compared with get_options() after every step. Also: manager objects entered while active or again afterwards, decorated recursive functions, updates with ill-formed values (atomic either way), unknown names with any value (None, False, ""), runs with warnings escalated to errors, a second party's set_options landing at executed line k of a running library operation (which must not overwrite it), and stack exhaustion at every distance from the recursion limit in a window around a block. The enumerated family (depth 1-4 x 15 exit kinds x 7 inner actions x catch level) is covered completely in every run, the rest is seeded sampling: evidence, not proof.",
         note="Trusts CPython's contextlib and the harness's stack model (40 lines). Interrupts are never injected into frames of numpoly/option.py itself (asynchronous-exception atomicity of a context manager's own entry/exit code is more than C14 states). Overlapping global_options blocks of two threads are not explored (they restore each other's snapshots by design of the unchanged tree; DESIGN 9)."),
 
     "C17": dict(level="fault_enumeration", ref="DESIGN.md §4 C17",
         technique="deterministic simulation: fault injection at interior points of every public call (line interrupts, allocation failures, natural errors) with byte-level argument snapshots",
-        text="Every callable of a 172-entry catalogue (functions, numpy spellings, operators incl. reflected, methods, properties; optional keywords such as where=, print options) is called on generated arguments, including already-aligned operands that make internal aliasing possible, in four run classes: fault-free, natural error (spoiled arguments), asynchronous interrupt at executed line k of numpoly code (k from a fault-free dry run; thorough enumerates every k up to 1500 lines per call), MemoryError at allocation k (every k). All arguments are snapshotted byte-for-byte before and compared after, whatever the outcome; after a failed call the option dict and dispatch registries are re-checked. Allocation requests include numpy's array-creating functions called from numpoly code; arguments also come as bool/narrow dtypes, transposed or reversed views (their parents are snapshotted too), the same object twice, operands with names in reverse order, 0-d array axes, and arrays handed directly to constructors and index utilities; a share of the runs has warnings/numpy error state escalated to exceptions. An argument that can no longer be read afterwards counts as changed.",
+        text="Every callable of a 181-entry catalogue (functions, numpy spellings, operators incl. reflected, methods, properties; optional keywords such as where=, print options) is called on generated arguments, including already-aligned operands that make internal aliasing possible, in four run classes: fault-free, natural error (spoiled arguments), asynchronous interrupt at executed line k of numpoly code (k from a fault-free dry run; thorough enumerates every k up to 1500 lines per call), MemoryError at allocation k (every k). All arguments are snapshotted byte-for-byte before and compared after, whatever the outcome; after a failed call the option dict and dispatch registries are re-checked. Allocation requests include numpy's array-creating functions called from numpoly code; arguments also come as bool/narrow dtypes, transposed or reversed views (their parents are snapshotted too), the same object twice, operands with names in reverse order, 0-d array axes, and arrays handed directly to constructors and index utilities; a share of the runs has warnings/numpy error state escalated to exceptions. An argument that can no longer be read afterwards counts as changed.",
         note="Cython frames are invisible to the line tracer (they run to completion). Explicit output targets (out=, copyto destination) are not generated."),
     "C18": dict(level="exploration", ref="DESIGN.md §4 C18",
         technique="deterministic simulation: adversarial tie orders of the unstable sort (SortSeam) against a comparison-based reference sort and brute-force index enumeration",
-        text="glexsort key matrices (exhaustive small family plus random ones up to 4x400), glexindex/bindex/monomial/cross_truncate argument tuples; every case is executed under every tie policy of the stand-in for numpy's unstable argsort (stable, reversed, rotated, seeded permutations) and must equal the reference (Python sorted with the documented key; brute-force enumeration of the grid with exact rational norms) and be identical across policies. 'Platform-independent' is thereby checked over tie orders no single machine exhibits. History and faults: an earlier result edited in place, the same request interrupted at a seeded line and made again, MemoryError at the k-th allocation request inside the call (a returned value must still be exact), numpy error state set to raise; bounds/keys/flags as numpy scalars and narrow dtypes near their limits, one long axis, every spelling of the bindex ordering, the largest expansions on pattern-filled memory.",
+        text="glexsort key matrices (exhaustive small family plus random ones up to 4x400), glexindex/bindex/monomial/cross_truncate argument tuples (monomial also inside a block with other retain/sort options); every case is executed under every tie policy of the stand-in for numpy's unstable argsort (stable, reversed, rotated, seeded permutations) and must equal the reference (Python sorted with the documented key; brute-force enumeration of the grid with exact rational norms) and be identical across policies. 'Platform-independent' is thereby checked over tie orders no single machine exhibits. History and faults: an earlier result edited in place, the same request interrupted at a seeded line and made again, MemoryError at the k-th allocation request inside the call (a returned value must still be exact), numpy error state set to raise; bounds/keys/flags as numpy scalars and narrow dtypes near their limits, one long axis, every spelling of the bindex ordering, the largest expansions on pattern-filled memory.",
         note="Only module-level numpy.argsort/sort calls inside numpoly are interceptable; a method-form call would see this platform's real order (evidence reports seam consult counts). start<=stop and lower norm<=upper norm are generated; near-boundary points for norms .5/.8 are accepted either way."),
     "C07": dict(level="exploration", ref="DESIGN.md §4 C07",
         technique="deterministic simulation: tie-order seam x sort-option histories, documented-order oracle on canonical term dictionaries",
@@ -22,11 +22,11 @@ CLAIMED = {
         note="Names are generated in numeric-suffix order; no NaN/inf. Quick uses the stable policy plus one seeded adversarial policy per case, thorough all four."),
     "C19": dict(level="exploration", ref="DESIGN.md §4 C19",
         technique="deterministic simulation: tie-order seam x heap-content seam, leading-term oracle on canonical term dictionaries",
-        text="lead_exponent/lead_coefficient, sortable_proxy, argmax/argmin/amax/amin without axis, decompose, set_dimensions, isconstant/tonumpy on arrays with zero elements, equal leading terms and ties, executed under (tie policy, heap fill) environments; results must equal the reference computed from the term dictionaries and be identical across environments (no dependence on unstable-sort ties or on the bytes of fresh allocations). History: retain options in force, query / overwrite coefficients in place / query again, accessor and query results overwritten by the caller, near-collision primer, interrupted-then-repeated query; infinities; flags as numpy.bool_; the queries asked of the raw structured storage.",
+        text="lead_exponent/lead_coefficient, sortable_proxy, argmax/argmin/amax/amin without axis, decompose, set_dimensions, isconstant/tonumpy on arrays with zero elements, equal leading terms, int64 coefficients beyond 2**53 that differ by one and ties, executed under (tie policy, heap fill) environments; results must equal the reference computed from the term dictionaries and be identical across environments (no dependence on unstable-sort ties or on the bytes of fresh allocations). History: retain options in force, query / overwrite coefficients in place / query again, accessor and query results overwritten by the caller, near-collision primer, interrupted-then-repeated query; infinities; flags as numpy.bool_; the queries asked of the raw structured storage.",
         note="Real coefficients only. Tied proxy ranks may come in any order (not compared across environments)."),
     "C16": dict(level="exploration", ref="DESIGN.md §4 C16",
         technique="deterministic simulation: tie-order seam x display-option histories, independent text reader",
-        text="str and repr of generated arrays (units, negative/complex/bool coefficients, narrow dtypes, names to q12) under all display orders, alternative exponent/multiply signs (reached through option histories) and adversarial tie policies are read back by an independent tokenizer/evaluator over dictionary polynomials and must equal the polynomial; printed monomials must follow the selected order; text must not depend on the tie policy; to_sympy round trip for 0-d int/float polynomials. Chunks of runs share a process, so state leaking between prints (caches) is found and replayed with its history. Also: retain options in force, an interrupted earlier print of the same array, integers beyond 2**53, arbitrary 53-bit doubles (sympy round trip exact), exponents beyond one byte, shapes beyond numpy's summarising threshold of lines, numpy print settings that must not matter (linewidth, precision, sign, floatmode), pattern-filled fresh memory.",
+        text="str and repr of generated arrays (units, coefficients a hair away from +-1, negative/complex/bool coefficients, narrow dtypes, names to q12) under all display orders, alternative exponent/multiply signs (reached through option histories) and adversarial tie policies are read back by an independent tokenizer/evaluator over dictionary polynomials and must equal the polynomial; printed monomials must follow the selected order; text must not depend on the tie policy; to_sympy round trip for 0-d int/float polynomials. Chunks of runs share a process, so state leaking between prints (caches) is found and replayed with its history. Also: retain options in force, an interrupted earlier print of the same array, integers beyond 2**53, arbitrary 53-bit doubles (sympy round trip exact), exponents beyond one byte, shapes beyond numpy's summarising threshold of lines, numpy print settings that must not matter (linewidth, precision, sign, floatmode), pattern-filled fresh memory.",
         note="numpy's suppress/threshold/legacy print options stay at their defaults (they legitimately change the text); the sympy clause runs under the default signs."),
 
     "C11": dict(level="exploration", ref="DESIGN.md §4 C11",
@@ -36,22 +36,22 @@ CLAIMED = {
 
     "C12": dict(level="exploration", ref="DESIGN.md §4 C12",
         technique="deterministic simulation: heap-content seam (fill patterns incl. stale numpoly bytes, red zones) with numpy casts/promotion on plain arrays as the oracle",
-        text="All 14 numeric dtypes and all ordered pairs through constructors/casts (polynomial/aspolynomial/polynomial_from_attributes incl. mixed-dtype coefficient lists/dict/variable/symbols/astype), +,-,*,**, indexing, shape functions, creation functions and results with zero surviving terms; every step is executed under several contents of fresh memory (zero, 0xA5, 0xFF, seeded bytes, stale bytes of an earlier numpoly buffer) with canary zones around every polynomial buffer. The result must be byte-identical across fills (nothing unwritten is returned) and equal the dtype and values numpy's own cast/promotion gives. The complete (source dtype, target dtype, cast route) matrix comes first in every batch; also byte-swapped requested dtypes, Fortran-ordered data, numpy/Python scalar operands after an equal number of another type, neighbouring floats, the same object on both sides, index expressions with non-adjacent advanced indices, names+dtype requests, an interrupted earlier call.",
+        text="All 14 numeric dtypes and all ordered pairs through constructors/casts (polynomial/aspolynomial/polynomial_from_attributes incl. mixed-dtype coefficient lists/dict/variable/symbols/astype), +,-,*,**, indexing, shape functions, creation functions and results with zero surviving terms; every step is executed under several contents of fresh memory (zero, 0xA5, 0xFF, seeded bytes, stale bytes of an earlier numpoly buffer) with canary zones around every polynomial buffer. The result must be byte-identical across fills (nothing unwritten is returned) and equal the dtype and values numpy's own cast/promotion gives. The complete (source dtype, target dtype, cast route) matrix comes first in every batch; also byte-swapped requested dtypes, Fortran-ordered data, numpy/Python scalar operands after an equal number of another type, neighbouring floats, the same object on both sides, index expressions with non-adjacent advanced indices, names+dtype requests, an interrupted earlier call, raw structured arrays whose fields differ in type, dictionaries of differently typed arrays with int64 beyond 2**53.",
         note="numpoly.ndpoly(...) is the documented raw allocator (exempt). Buffers numpy allocates internally cannot be poisoned. Python-scalar operands: values only (a scalar is not a dtype). Runs execute in forked children; a child killed by a signal is recorded as undecided(crashed)."),
 
     "C13": dict(level="fault_enumeration", ref="DESIGN.md §4 C13",
         technique="deterministic simulation: simulated file objects/paths/locale with I/O fault injection at every write, read-side call and close; round-trip oracle on canonical forms",
-        text="Pickle (protocols 0-5, via dumps, simulated streams, out-of-band buffers), copy/deepcopy/.copy() and savetxt->loadtxt (fmt/delimiter/header/comments, both spellings) for 0-d, size-1, single-term, constant, multi-dimensional and transposed/sliced arrays, through text and bytes streams (with/without encoding attribute) and str/PathLike paths routed to simulated files under a simulated locale. Per save an OSError is injected at EVERY write index the fault-free run made and at close (a save that returns normally must load back); per load at every read-side call (the load must raise or return the right polynomial). Header-less files (with comment lines, skiprows) must load as the plain array numpy gives. Further faults: the device is full after N characters (raw streams return short counts; judged when the short count went to numpoly code), errno drawn from EIO/ENOSPC/EINTR/EAGAIN/ESTALE, forward-only readers, buffered readers whose peek returns a few bytes, newline/footer/header variety; re-pickling after an in-place update; 2 % of the runs execute in a fresh python -O interpreter.",
-        note="Nothing is asserted about torn files. Save and load share one simulated locale. A short count returned to numpy's own row writer (which ignores it) is undecided. bytes paths are not generated (numpy.savetxt rejects them). The FileSeam probes itself at every use (exit 2 if numpy moved the open() call sites)."),
+        text="Pickle (protocols 0-5, via dumps, simulated streams, out-of-band buffers), copy/deepcopy/.copy() and savetxt->loadtxt (fmt/delimiter/header/comments, both spellings) for 0-d, size-1, single-term, constant, multi-dimensional and transposed/sliced arrays, through text and bytes streams (with/without encoding attribute) and str/PathLike paths routed to simulated files under a simulated locale. Per save an OSError is injected at EVERY write index the fault-free run made and at close (a save that returns normally must load back); per load at every read-side call (the load must raise or return the right polynomial). Header-less files (with comment lines, skiprows) must load as the plain array numpy gives. Further faults: the device is full after N characters (raw streams return short counts; judged when the short count went to numpoly code), errno drawn from EIO/ENOSPC/EINTR/EAGAIN/ESTALE, forward-only readers, buffered readers whose peek returns a few bytes, newline/footer/header variety; re-pickling after an in-place update; the same path written a second and third time (another polynomial, a plain table) with a load after each; integer files beyond 2**53 loaded with an integer dtype; byte-swapped coefficients in pickle/copy; 2 % of the runs execute in a fresh python -O interpreter.",
+        note="Nothing is asserted about torn files. Save and load share one simulated locale. A short count returned to numpy's own row writer (which ignores it) is undecided. bytes paths are not generated (numpy.savetxt rejects them). The path router is the open() of numpy's loaders and of every numpoly module. The FileSeam probes itself at every use (exit 2 if numpy moved the open() call sites)."),
 
     "C20": dict(level="exploration", ref="DESIGN.md §4 C20",
         technique="deterministic simulation: monomial journeys with large exponents through every stage, the text-file stage under the FileSeam (stream kind, locale, explicit encodings, write faults); exponent tuples as the oracle",
-        text="Polynomials with exponents from {0..600, powers of two +-1 up to 1e5, the byte/ASCII/latin-1/surrogate/BMP boundaries, byte pairs that form valid UTF-8} are carried through a seeded sequence of stages (raw structured view and back, alignment, *, **, derivative, evaluation, symbol swap, pickle, savetxt->loadtxt on text/bytes streams and paths under utf-8/latin-1/ascii locales, explicit save encodings and write faults); after each stage the stage raised or the (exponent tuple, coefficient) set equals the model. Journeys also run under the retain options, with column-major exponent matrices, partial evaluation with merging terms, several differentiation variables, powers given as numpy scalars, evaluation at 2, near-collision tuples, subsets of names, an interrupted earlier attempt of a stage. Range sweeps encode/decode every exponent of a window (thorough: the whole representable range) and multiply (sum c_a q0**a)*q0**b for every a+b<=600.",
+        text="Polynomials with exponents from {0..600, powers of two +-1 up to 1e5, the byte/ASCII/latin-1/surrogate/BMP boundaries, byte pairs that form valid UTF-8} are carried through a seeded sequence of stages (raw structured view and back, alignment, *, **, derivative, evaluation, symbol swap, pickle, savetxt->loadtxt on text/bytes streams and paths under utf-8/latin-1/ascii locales, explicit save encodings and write faults); after each stage the stage raised or the (exponent tuple, coefficient) set equals the model. Journeys also run under the retain options, with column-major exponent matrices, partial evaluation with merging terms, several differentiation variables, powers given as numpy scalars, evaluation at 2, near-collision tuples, subsets of names, an interrupted earlier attempt of a stage, int32/int16 coefficients, HeapSeam fill patterns for fresh memory, whole arrays of powers, names stored out of order with a differentiation that removes an indeterminate. Range sweeps encode/decode every exponent of a window (thorough: the whole representable range) and multiply (sum c_a q0**a)*q0**b for every a+b<=600.",
         note="A raising stage is a violation only below exponent 55 000 and outside the text stage. Symbol substitution is limited to exponents <= 100 (power is repeated multiplication). int64 coefficients; journeys whose model coefficients would overflow stop undecided."),
 
     "C15": dict(level="exploration", ref="DESIGN.md §4 C15",
         technique="deterministic simulation: option histories (C14 program shapes) x dataflow programs, twin execution under defaults as the oracle",
-        text="Small dataflow programs over a pool of polynomials (construct, + - * **, derivative/gradient/hessian by name/index/polynomial, full/partial/polynomial evaluation, indexing, alignment, clean_attributes, pickle, comparisons, lead_*, argmax, maximum, str/repr, shape functions, construction from dictionaries / without names / with one string name, isfinite, tonumpy, powers by a polynomial, evaluation of a cancelled-to-constant polynomial with arrays, symbols(), items overwritten in place) run inside option histories (nested global_options blocks, set_options inside blocks, rejected updates, exception exits; retain_*/sort_*/display_*/force_number_suffix), so operands built under one regime are consumed under another; the same program runs a second time under the shipped defaults (ordering steps with the same sort_*, text steps with the same display_*) and every step must agree in outcome class, shape, coefficient dtype and canonical value.",
+        text="Small dataflow programs over a pool of polynomials (construct, + - * **, derivative/gradient/hessian by name/index/polynomial, full/partial/polynomial evaluation, indexing, alignment, clean_attributes, pickle, comparisons, lead_*, argmax, maximum/minimum and all ordering operators, str/repr, shape functions, construction from dictionaries / without names / with one string name, isfinite, tonumpy, powers by a polynomial, evaluation of a cancelled-to-constant polynomial with arrays, symbols(), items overwritten in place) run inside option histories (nested global_options blocks, set_options inside blocks, rejected updates, exception exits; retain_*/sort_*/display_*/force_number_suffix), so operands built under one regime are consumed under another; the same program runs a second time under the shipped defaults (ordering steps with the same sort_*, text steps with the same display_*) and every step must agree in outcome class, shape, coefficient dtype and canonical value.",
         note="Division is excluded (the property quantifies it under default retain options). Steps designating an indeterminate that retain_names=False legitimately pruned, and positional results (gradient/hessian/lead_exponent) over pruned names, are undecided. Its per-call core is configuration sampling; what simulation adds is the history through which the setting and the operands came about."),
 }
 
